@@ -344,6 +344,7 @@ World::Def World::nextDefault(bool) {
   if (pickResponder) return Def{D_SILENCE, 0};  // ebusd owns the bus after the won arbitration
   if (active != nullptr) {
     const Seg& s = (*active)[seg];
+    if (isPause(s)) return Def{D_PAUSE, 0};
     if (s.await) return Def{D_SILENCE, 0};
     return Def{D_BYTE, s.bytes[off]};
   }
@@ -384,6 +385,14 @@ uint64_t World::stateHash() {
   put(h->m_response.size(), 1); s.append((const char*)h->m_response.data(), h->m_response.size());
   time_t now = time(nullptr);
   put(difftime(now, h->m_lastReceive) > 1 ? 1 : 0, 1);
+  if (timeExact) {
+    // scripted pauses make silence of 1..2 s reachable, where the signal-loss test (whole seconds) depends on the
+    // phase of the clock: keep the exact time since the second in which the last symbol was received
+    // (microseconds: sleeps of the device code count too; the phase stays relevant after any later receive)
+    int64_t secs = vp::vclockGet() / 1000000 - (int64_t)h->m_lastReceive;
+    put((uint64_t)(secs < 0 ? 0 : secs > 3 ? 3 : secs), 1);
+    put((uint64_t)(vp::vclockGet() % 1000000), 4);
+  }
   // seen addresses influence m_lockCount/masterCount only; include a digest
   uint64_t seen = 1469598103934665603ULL;
   {
@@ -498,6 +507,14 @@ void World::setup() {
     pollCtx = pc;
   }
 #endif
+  if (ex.debugSucc) ex.debugAux = [this]() {
+    char b[400];
+    snprintf(b, sizeof(b), "vclock=%lld lastReceive=%lld lat=%d reads=%d steps=%d state=%d lock=%u tail=%d gapLeft=%d lastSyn=%d bufsz=%zu echoQ=%zu",
+             (long long)vp::vclockGet(), (long long)h->m_lastReceive, (int)tr->getLatency(), reads, steps, (int)h->m_state, h->m_remainLockCount, tail, gapLeft, (int)lastSyn, tr->m_buf.size(), echoQ.size());
+    return std::string(b);
+  };
+  timeExact = false;
+  for (auto& f : sc.foreign) for (auto& sg : f) if (isPause(sg)) timeExact = true;
   h->m_running = true;
   tr->m_valid = true;
   if (sc.enhanced) dev->open();  // sends the INIT request like the daemon does at start-up
@@ -560,6 +577,14 @@ result_t World::onRead(unsigned int timeout) {
       }
       endRun();
       return endTimeout();
+    }
+    if (d.k == D_PAUSE) {  // scripted silence: no choice here
+      int ms = (int)timeout + lat + (*active)[seg].n - 1;
+      vp::vclockAdvanceMs(ms);
+      evTimeout(ms);
+      advanceScript();
+      lastSyn = false;
+      return RESULT_ERR_TIMEOUT;
     }
     // ---- menu ----
     enum A { DEFAULT, REPLACE, DROP, INSERT, SILENCE, LONGSILENCE, CHUNK, SPLIT, CHUNKHALF, LOSE_QUIET, LOSE_TEL, ECHO_LOST, ECHO_LATE, READERR, ENQ };
